@@ -12,6 +12,7 @@ def run(tier, seed):
     cases = lc.run_family(vlib, "control", work, r, fresh=True)
     cases += lc.run_family(vlib, "delim", work, r, fresh=True)
     cases += lc.run_family(vlib, "store", work, r, fresh=True)
+    cases += lc.run_family(vlib, "param", work, r, fresh=True)
     # the builder also assembles call/cc and with-handler forms: all programs within the budget
     res = vlib.run_tlc("Lang", "MC_Lang_build_quick.cfg" if tier == "quick" else "MC_Lang_build.cfg", work, workers=8, timeout=1500)
     r.add_tlc(res)
@@ -25,7 +26,7 @@ def run(tier, seed):
         r.add_cases(tagged, verdicts, nontrivial=lc.nontrivial)
     for env in (None, {"STEEL_JIT": "false"}):
         lc.replay_modules(vlib, cases, work, r, "c08.mod" + ("n" if env else ""), env=env, nontriv=lc.nontrivial_mod)
-    r.cov["rule"] = ("delim family (reset/shift defined exactly as scheme/stdlib.scm does, on call/cc and a meta-continuation cell: contexts x uses of k x dynamic-wind nesting) and control family of LangFam.tla (capture context x dynamic-wind nesting x invocation; escapes from nested calls, "
+    r.cov["rule"] = ("param family (parameter objects / parameterize as the R7RS reference implementation over dynamic-wind: value expression with and without effects x read / nest / escape / raise / re-entry), delim family (reset/shift defined exactly as scheme/stdlib.scm does, on call/cc and a meta-continuation cell: contexts x uses of k x dynamic-wind nesting) and control family of LangFam.tla (capture context x dynamic-wind nesting x invocation; escapes from nested calls, "
                      "map/foldl callbacks and handlers; errors through winds and handlers) and every builder program containing call/cc "
                      "or with-handler, run on the Lang.tla CEK machine and replayed under JIT on and off, as top-level units and as module files")
     r.cov["exhaustive"] = True
